@@ -1,6 +1,8 @@
 SPECIFICATION TSpec
 CONSTANTS ReaderCap = 100
   ValCap0 = 128
+  Mode = "check"
+  MainKeepsReceiver = FALSE
 CONSTRAINT Reached
 POSTCONDITION Accepted
 CHECK_DEADLOCK FALSE
